@@ -2470,3 +2470,72 @@ def two_worker_default_run(workload: str, j_sym: Any, inject_at: Any = None, inj
                 return True
             finally:
                 w.close()
+
+
+# ----------------------------------------------------------------------------------------------- C19 on the real SQLite + real json
+def stored_is_read_back_run(size_sym: Any, edit_sym: Any, path_sym: Any, who_sym: Any) -> bool:
+    """C19 with the real sqlite3 and the real json module: two sibling stages whose context / outputs are
+    byte-identical documents of a symbolic size class; one loaded copy is edited in memory (and either
+    dropped, saved, or its save rejected); every later read of either stage returns exactly what is
+    stored for it - no loaded object shares state with another one."""
+    import copy as _copy
+
+    from stabilize.errors import ConcurrencyError
+    from vf.native import stage, workflow
+
+    with hx.Path("stored_is_read_back") as P:
+        with hx.native():
+            sizes = [0, 40, 300, 1100, 5000, 70000]
+            size = sizes[hx.pick(size_sym, len(sizes))]
+            edit = hx.pick(edit_sym, 3)  # 0: top-level key, 1: nested list append, 2: nested dict key
+            path = hx.pick(path_sym, 2)  # read back through retrieve_stage / retrieve
+            who = hx.pick(who_sym, 3)  # 0: edited copy dropped, 1: edited copy saved, 2: edited copy's save rejected (stale version)
+            w = World()
+            try:
+                doc = {"blob": "x" * size, "items": [1, 2, {"k": "v"}], "nested": {"a": {"b": [True, None, 1.5]}}, "uni": "\u00e9\u4e2d\"\\"}
+                wf = workflow([stage("a", ctx=_copy.deepcopy(doc)), stage("b", ctx=_copy.deepcopy(doc))])
+                for st in wf.stages:
+                    st.outputs = _copy.deepcopy(doc)
+                w.store.store(wf)
+                ida, idb = [st.id for st in wf.stages]
+
+                def read(sid: str) -> Any:
+                    if path == 0:
+                        return w.store.retrieve_stage(sid)
+                    return next(st for st in w.store.retrieve(wf.id).stages if st.id == sid)
+
+                want_a_ctx, want_a_out = _copy.deepcopy(read(ida).context), _copy.deepcopy(read(ida).outputs)
+                want_b_ctx, want_b_out = _copy.deepcopy(read(idb).context), _copy.deepcopy(read(idb).outputs)
+                P.reached("size=%d edit=%d path=%d who=%d" % (size, edit, path, who), {"size": size, "edit": edit, "read_through": ["retrieve_stage", "retrieve"][path], "edited_copy": ["dropped", "saved", "save rejected"][who]})
+                victim = read(ida)
+                other = read(ida) if who == 2 else None
+                for target in (victim.context, victim.outputs):
+                    if edit == 0:
+                        target["added"] = "edited"
+                    elif edit == 1:
+                        target["items"].append("edited")
+                    else:
+                        target["nested"]["a"]["new"] = "edited"
+                if who == 1:
+                    w.store.store_stage(victim)
+                    want_a_ctx, want_a_out = _copy.deepcopy(victim.context), _copy.deepcopy(victim.outputs)
+                elif who == 2:
+                    assert other is not None
+                    other.context["winner"] = 1
+                    w.store.store_stage(other)
+                    want_a_ctx, want_a_out = _copy.deepcopy(other.context), _copy.deepcopy(other.outputs)
+                    try:
+                        w.store.store_stage(victim)
+                        return P.fail("C19/alias/stale_save_accepted", {"size": size})
+                    except ConcurrencyError:
+                        pass
+                info = {"size": size, "edit": ["top-level key", "nested list append", "nested dict key"][edit], "read_through": ["retrieve_stage", "retrieve"][path], "edited_copy": ["dropped", "saved", "save rejected"][who]}
+                for _ in range(2):
+                    got_a, got_b = read(ida), read(idb)
+                    if got_a.context != want_a_ctx or got_a.outputs != want_a_out:
+                        return P.fail("C19/alias/edited_stage_reads_back_differently/%s" % info["edited_copy"].replace(" ", "_"), info)
+                    if got_b.context != want_b_ctx or got_b.outputs != want_b_out:
+                        return P.fail("C19/alias/sibling_stage_changed/%s" % info["edited_copy"].replace(" ", "_"), info)
+                return True
+            finally:
+                w.close()
